@@ -137,15 +137,21 @@ impl Database for GateDb {
     }
     async fn get_user_data(&self, u: &AkdLabel) -> Result<KeyData, StorageError> {
         self.ctl.gate().await;
-        self.inner.get_user_data(u).await
+        let x = self.inner.get_user_data(u).await;
+        self.ctl.after().await;
+        x
     }
     async fn get_user_state(&self, u: &AkdLabel, f: ValueStateRetrievalFlag) -> Result<ValueState, StorageError> {
         self.ctl.gate().await;
-        self.inner.get_user_state(u, f).await
+        let x = self.inner.get_user_state(u, f).await;
+        self.ctl.after().await;
+        x
     }
     async fn get_user_state_versions(&self, u: &[AkdLabel], f: ValueStateRetrievalFlag) -> Result<HashMap<AkdLabel, (u64, AkdValue)>, StorageError> {
         self.ctl.gate().await;
-        self.inner.get_user_state_versions(u, f).await
+        let x = self.inner.get_user_state_versions(u, f).await;
+        self.ctl.after().await;
+        x
     }
 }
 
@@ -432,7 +438,7 @@ async fn c12_detached<TC: Configuration>(cx: &mut Cx, batch_a: &[(Vec<u8>, Vec<u
 /// database's answer and the manager's use of it), the publisher runs to completion, the reader resumes.  Afterwards
 /// every label is looked up through the same directory and a further publish is compared with serial application.
 /// Returns the failures found (attributed by the caller).
-async fn k3_case<TC: Configuration>(k: usize, reader_label: usize) -> Vec<String> {
+async fn k3_case<TC: Configuration>(k: usize, reader_label: usize, cache_point: bool) -> Vec<String> {
     let cfg = cfg_name::<TC>();
     let mut fails = vec![];
     let (base, labels) = base_history();
@@ -450,7 +456,16 @@ async fn k3_case<TC: Configuration>(k: usize, reader_label: usize) -> Vec<String
     let pk = HardCodedAkdVRF {}.get_vrf_public_key().await.unwrap().as_bytes().to_vec();
     let batch_a: Vec<(Vec<u8>, Vec<u8>)> = vec![(labels[0].clone(), vec![50, 0]), (labels[3].clone(), vec![50, 3]), (vec![b'n', 1], vec![50, 9])];
     let batch_b: Vec<(Vec<u8>, Vec<u8>)> = vec![(vec![b'n', 2], vec![51, 1])];
-    ctl.post_gate.store(true, Ordering::SeqCst);
+    if cache_point {
+        // park where a task is about to store records in the cache (hook) instead of just after the database's answer
+        let c = ctl.clone();
+        akd::storage::cache::high_parallelism::verif_hook::set(Some(Arc::new(move || {
+            let c = c.clone();
+            Box::pin(async move { c.gate().await })
+        })));
+    } else {
+        ctl.post_gate.store(true, Ordering::SeqCst);
+    }
     ctl.free_run.store(false, Ordering::SeqCst);
     let mut handles = vec![];
     {
@@ -472,6 +487,7 @@ async fn k3_case<TC: Configuration>(k: usize, reader_label: usize) -> Vec<String
     sched.extend(vec![0usize; 400]);
     sched.extend(vec![1usize; 400]);
     drive(&ctl, &mut handles, &sched).await;
+    akd::storage::cache::high_parallelism::verif_hook::set(None);
     let mut outs = vec![];
     for h in handles {
         match tokio::time::timeout(Duration::from_secs(20), h).await {
@@ -482,7 +498,7 @@ async fn k3_case<TC: Configuration>(k: usize, reader_label: usize) -> Vec<String
             }
         }
     }
-    let what = format!("[cfg {} cold shared cache, reader of label #{} parked after {} gate passages while a publish completes]", cfg, reader_label, k);
+    let what = format!("[cfg {} cold shared cache, reader of label #{} parked after {} gate passages{} while a publish completes]", cfg, reader_label, k, if cache_point { " (gates: before each database call and before each cache update)" } else { "" });
     match &outs[0] {
         Ok((e, h, _)) => hashes.push({ let _ = e; *h }),
         Err(e) => {
@@ -538,9 +554,10 @@ pub fn k3_probe(tier: u32) -> Vec<String> {
         let kmax = if tier == 0 { 14 } else { 40 };
         for k in 1..=kmax {
             for rl in [0usize, 4] {
-                all.extend(k3_case::<W>(k, rl).await);
+                all.extend(k3_case::<W>(k, rl, false).await);
+                all.extend(k3_case::<W>(k, rl, true).await);
                 if tier != 0 {
-                    all.extend(k3_case::<E>(k, rl).await);
+                    all.extend(k3_case::<E>(k, rl, false).await);
                 }
             }
         }
@@ -818,11 +835,14 @@ pub fn run(seed: u64, tier: u32, which: &str) -> Cx {
             }
             // a reader parked between the database's answer and the cache fill while a publish completes (cold shared cache)
             for k in 1..(if tier == 0 { 12 } else { 40 }) {
-                for f in k3_case::<W>(k, if k % 2 == 0 { 0 } else { 4 }).await {
+                for f in k3_case::<W>(k, if k % 2 == 0 { 0 } else { 4 }, false).await {
+                    cx.fail(f);
+                }
+                for f in k3_case::<W>(k, if k % 2 == 0 { 4 } else { 0 }, true).await {
                     cx.fail(f);
                 }
                 if tier != 0 || k % 3 == 0 {
-                    for f in k3_case::<E>(k, 0).await {
+                    for f in k3_case::<E>(k, 0, k % 2 == 0).await {
                         cx.fail(f);
                     }
                 }
@@ -840,7 +860,10 @@ pub fn run(seed: u64, tier: u32, which: &str) -> Cx {
         } else {
             // the same scenario on behalf of C13 and C16 (messages carry their property's prefix)
             for k in 1..(if tier == 0 { 12 } else { 40 }) {
-                for f in k3_case::<W>(k, if k % 2 == 0 { 4 } else { 0 }).await {
+                for f in k3_case::<W>(k, if k % 2 == 0 { 4 } else { 0 }, false).await {
+                    cx.fail(f);
+                }
+                for f in k3_case::<W>(k, if k % 2 == 0 { 0 } else { 4 }, true).await {
                     cx.fail(f);
                 }
                 cx.stat("cold_cache_reader_parked");
@@ -870,5 +893,271 @@ pub fn run(seed: u64, tier: u32, which: &str) -> Cx {
             }
         }
     });
+    cx
+}
+
+// ---------------------------------------------------------------------------------------------------------
+// The read-fill / write-through protocol of the storage manager against its model (coq/CacheProto.v).
+// Reader tasks read one record through a cached manager (get, batch_get: the cache is consulted first;
+// get_user_state: it is not), one writer task writes it (set, batch_set); every task is parked just before and
+// just after each of its calls of the data layer and released one call at a time by the schedule.  The model
+// runs the same tasks under the same schedule; compared are the data layer's final record, what the cache
+// holds at the end, and what every read returned.
+
+const PU: &[u8] = b"proto-user";
+fn proto_rec(v: u8) -> DbRecord {
+    DbRecord::ValueState(ValueState { value: AkdValue(vec![v]), version: 1, label: akd::NodeLabel::root(), epoch: 1, username: AkdLabel(PU.to_vec()) })
+}
+fn proto_val(r: &DbRecord) -> u8 {
+    match r {
+        DbRecord::ValueState(v) => v.value.0[0],
+        _ => 254,
+    }
+}
+
+/// tasks: per task its operations, (is_read, api variant, value to write)
+async fn proto_case(cx: &mut Cx, d: u8, tasks: &[Vec<(bool, u8, u8)>], sched: &[usize], cache_point: bool) {
+    use akd::storage::types::ValueStateKey;
+    let ctl = Ctl::new(tasks.len());
+    let db = GateDb { inner: AsyncInMemoryDatabase::new(), ctl: ctl.clone() };
+    db.inner.set(proto_rec(d)).await.unwrap();
+    let mgr = StorageManager::new(db.clone(), Some(Duration::from_secs(3600)), None, Some(Duration::from_secs(3600)));
+    let key = ValueStateKey(PU.to_vec(), 1);
+    // the second parking point of an operation: just after the data layer's answer, or (hook of the cache) where the
+    // task is about to store records in the cache - for the protocol of the code the two are the same point
+    if cache_point {
+        let c = ctl.clone();
+        akd::storage::cache::high_parallelism::verif_hook::set(Some(Arc::new(move || {
+            let c = c.clone();
+            Box::pin(async move { c.gate().await })
+        })));
+    } else {
+        ctl.post_gate.store(true, Ordering::SeqCst);
+    }
+    ctl.free_run.store(false, Ordering::SeqCst);
+    // model indices
+    let (mut rs, mut ws, mut enc) = (vec![], vec![], vec![]);
+    for t in tasks {
+        let mut e = vec![];
+        for (is_read, api, v) in t {
+            if *is_read {
+                e.push(format!("r{}", rs.len()));
+                rs.push(if *api == 2 { '0' } else { '1' });
+            } else {
+                e.push(format!("w{}", ws.len()));
+                ws.push(v.to_string());
+            }
+        }
+        enc.push(e.join(","));
+    }
+    let mut handles = vec![];
+    for (ti, t) in tasks.iter().enumerate() {
+        let m = mgr.clone();
+        let t = t.clone();
+        let key = key.clone();
+        handles.push(tokio::spawn(TASK.scope(ti, async move {
+            let mut rets: Vec<Result<u8, String>> = vec![];
+            for (is_read, api, v) in t {
+                if is_read {
+                    let r = match api {
+                        0 => m.get::<ValueState>(&key).await.map(|r| proto_val(&r)),
+                        1 => m.batch_get::<ValueState>(&[key.clone()]).await.map(|r| if r.len() == 1 { proto_val(&r[0]) } else { 253 }),
+                        _ => m.get_user_state(&AkdLabel(PU.to_vec()), ValueStateRetrievalFlag::SpecificEpoch(1)).await.map(|s| s.value.0[0]),
+                    };
+                    rets.push(r.map_err(|e| format!("{:?}", e)));
+                } else {
+                    let r = if api == 0 { m.set(proto_rec(v)).await } else { m.batch_set(vec![proto_rec(v)]).await };
+                    if let Err(e) = r {
+                        rets.push(Err(format!("{:?}", e)));
+                    }
+                }
+            }
+            rets
+        })));
+    }
+    // the schedule, then every task to its end one after the other (so that nothing is left to the runtime's choice)
+    let mut full = sched.to_vec();
+    for (ti, t) in tasks.iter().enumerate() {
+        full.extend(vec![ti; 2 * t.len() + 1]);
+    }
+    drive(&ctl, &mut handles, &full).await;
+    let mut rets = vec![];
+    for h in handles {
+        match tokio::time::timeout(Duration::from_secs(20), h).await {
+            Ok(Ok(o)) => rets.extend(o),
+            _ => {
+                akd::storage::cache::high_parallelism::verif_hook::set(None);
+                cx.fail(format!("proto {:?} {:?}: a task did not finish", tasks, sched));
+                return;
+            }
+        }
+    }
+    akd::storage::cache::high_parallelism::verif_hook::set(None);
+    let dbv = proto_val(&db.inner.get::<ValueState>(&key).await.unwrap());
+    // what the cache holds: change the data layer behind the manager's back and read through the manager
+    db.inner.set(proto_rec(255)).await.unwrap();
+    let cv = match mgr.get::<ValueState>(&key).await {
+        Ok(r) if proto_val(&r) == 255 => "-".to_string(),
+        Ok(r) => proto_val(&r).to_string(),
+        Err(e) => format!("ERR{:?}", e),
+    };
+    let rets: Vec<String> = rets.into_iter().map(|r| match r { Ok(v) => v.to_string(), Err(e) => format!("ERR:{}", e.replace(' ', "_")) }).collect();
+    let q = format!("{} {} {} {} {} {}", if cache_point { "protoc" } else { "proto" }, d, if rs.is_empty() { "-".to_string() } else { rs.iter().collect::<String>() }, if ws.is_empty() { "-".to_string() } else { ws.join(",") }, enc.join("|"), full.iter().map(|t| t.to_string()).collect::<String>());
+    cx.emit(q, format!("{} {} [{}]", dbv, cv, rets.join(",")));
+    if cv != "-" && cv != dbv.to_string() {
+        cx.fail(format!("C16 storage manager [tasks {} schedule {}{}]: with every task finished the cache holds {} but the data layer holds {}", enc.join("|"), full.iter().map(|t| t.to_string()).collect::<String>(), if cache_point { ", parked before the cache is updated" } else { "" }, cv, dbv));
+    }
+    cx.stat(if cv == "-" { "proto_cache_empty_at_end" } else { "proto_cache_filled_at_end" });
+}
+
+/// the same tasks on a multi-thread runtime with nothing parked: readers and one writer run truly in parallel on one
+/// cached manager; at the end (nothing in progress) the cache must hold nothing or the data layer's record, and every
+/// read must have returned a value that was written
+fn proto_parallel(cx: &mut Cx, rounds: usize, seed: u64) {
+    use akd::storage::types::ValueStateKey;
+    let rt = tokio::runtime::Builder::new_multi_thread().worker_threads(4).enable_all().build().unwrap();
+    let mut r = Rng::new(seed ^ 0x77AA);
+    for round in 0..rounds {
+        let nwrites = 5 + r.below(40) as u8;
+        let nreaders = 2 + r.below(3) as usize;
+        let apis: Vec<u8> = (0..nreaders).map(|_| r.below(3) as u8).collect();
+        let lifetime_ms = if round % 3 == 0 { 2 } else { 3_600_000 };
+        let res: Result<(u8, String, Vec<Vec<u8>>), String> = rt.block_on(async {
+            let db = AsyncInMemoryDatabase::new();
+            db.set(proto_rec(1)).await.unwrap();
+            let mgr = StorageManager::new(db.clone(), Some(Duration::from_millis(lifetime_ms)), None, Some(Duration::from_millis(1)));
+            let key = ValueStateKey(PU.to_vec(), 1);
+            let done = Arc::new(AtomicBool::new(false));
+            let mut hs = vec![];
+            for api in apis.clone() {
+                let (m, key, done) = (mgr.clone(), key.clone(), done.clone());
+                hs.push(tokio::spawn(async move {
+                    let mut seen = vec![];
+                    while !done.load(Ordering::SeqCst) && seen.len() < 4000 {
+                        let v = match api {
+                            0 => m.get::<ValueState>(&key).await.map(|r| proto_val(&r)),
+                            1 => m.batch_get::<ValueState>(&[key.clone()]).await.map(|r| if r.len() == 1 { proto_val(&r[0]) } else { 253 }),
+                            _ => m.get_user_state(&AkdLabel(PU.to_vec()), ValueStateRetrievalFlag::SpecificEpoch(1)).await.map(|s| s.value.0[0]),
+                        };
+                        match v {
+                            Ok(v) => seen.push(v),
+                            Err(_) => seen.push(252),
+                        }
+                        tokio::task::yield_now().await;
+                    }
+                    seen
+                }));
+            }
+            let m = mgr.clone();
+            let w = tokio::spawn(async move {
+                for v in 2..(2 + nwrites) {
+                    let r = if v % 2 == 0 { m.set(proto_rec(v)).await } else { m.batch_set(vec![proto_rec(v)]).await };
+                    if r.is_err() {
+                        return false;
+                    }
+                    tokio::task::yield_now().await;
+                }
+                true
+            });
+            if !w.await.map_err(|e| e.to_string())? {
+                return Err("a write failed".to_string());
+            }
+            done.store(true, Ordering::SeqCst);
+            let mut seens = vec![];
+            for h in hs {
+                seens.push(h.await.map_err(|e| e.to_string())?);
+            }
+            let dbv = proto_val(&db.get::<ValueState>(&key).await.unwrap());
+            db.set(proto_rec(255)).await.unwrap();
+            let cv = match mgr.get::<ValueState>(&key).await {
+                Ok(r) if proto_val(&r) == 255 => "-".to_string(),
+                Ok(r) => proto_val(&r).to_string(),
+                Err(e) => format!("ERR{:?}", e),
+            };
+            Ok((dbv, cv, seens))
+        });
+        cx.stat("proto_parallel_rounds");
+        match res {
+            Err(e) => cx.fail(format!("C16 storage manager, parallel round {}: {}", round, e)),
+            Ok((dbv, cv, seens)) => {
+                let what = format!("[multi-thread runtime, seed {} round {}, {} writes, readers {:?}, item lifetime {} ms]", seed, round, nwrites, apis, lifetime_ms);
+                if dbv != 1 + nwrites {
+                    cx.fail(format!("C16 storage manager {}: the data layer ends with {} instead of the last write {}", what, dbv, 1 + nwrites));
+                }
+                if cv != "-" && cv != dbv.to_string() {
+                    cx.fail(format!("C16 storage manager {}: with nothing in progress the cache holds {} but the data layer holds {}", what, cv, dbv));
+                }
+                for s in &seens {
+                    *cx.stats.entry("proto_parallel_reads".to_string()).or_insert(0) += s.len() as u64;
+                    if let Some(bad) = s.iter().find(|v| **v < 1 || **v > 1 + nwrites) {
+                        cx.fail(format!("C16 storage manager {}: a read returned {} which was never written", what, bad));
+                    }
+                }
+            }
+        }
+    }
+}
+
+pub fn proto(seed: u64, tier: u32) -> Cx {
+    let rt = tokio::runtime::Builder::new_current_thread().enable_all().build().unwrap();
+    let mut cx = Cx::new();
+    let mut r = Rng::new(seed ^ 0x9407);
+    rt.block_on(async {
+        // one reader, one writer: every interleaving of their parking points, every api variant
+        for rapi in 0..3u8 {
+            for wapi in 0..2u8 {
+                for order in 0..2 {
+                    let tasks = if order == 0 { vec![vec![(true, rapi, 0)], vec![(false, wapi, 5)]] } else { vec![vec![(false, wapi, 5)], vec![(true, rapi, 0)]] };
+                    for bits in 0..16u32 {
+                        let sched: Vec<usize> = (0..4).map(|i| ((bits >> i) & 1) as usize).collect();
+                        proto_case(&mut cx, 1, &tasks, &sched, false).await;
+                        proto_case(&mut cx, 1, &tasks, &sched, true).await;
+                    }
+                }
+            }
+        }
+        // two reads that do not consult the cache first against a read and two writes: every schedule prefix of length nine
+        for order in 0..2 {
+            // (the writing task reads first, so that its write starts in the middle of the schedule)
+            let rt_: Vec<(bool, u8, u8)> = vec![(true, 2, 0), (true, 2, 0)];
+            let wt_: Vec<(bool, u8, u8)> = vec![(true, 2, 0), (false, 0, 5), (false, 1, 6)];
+            let tasks = if order == 0 { vec![rt_.clone(), wt_.clone()] } else { vec![wt_.clone(), rt_.clone()] };
+            for bits in 0..512u32 {
+                let sched: Vec<usize> = (0..9).map(|i| ((bits >> i) & 1) as usize).collect();
+                proto_case(&mut cx, 1, &tasks, &sched, bits % 2 == 0).await;
+                proto_case(&mut cx, 1, &tasks, &sched, bits % 2 == 1).await;
+            }
+        }
+        // random: up to three reader tasks of one or two reads and a writer task of one to three writes
+        let n = if tier == 0 { 3000 } else { 60000 };
+        for _ in 0..n {
+            let nreaders = 1 + r.below(3) as usize;
+            let mut tasks: Vec<Vec<(bool, u8, u8)>> = vec![];
+            for _ in 0..nreaders {
+                let k = 1 + r.below(2) as usize;
+                tasks.push((0..k).map(|_| (true, r.below(3) as u8, 0)).collect());
+            }
+            // (one time in eight no writer at all)
+            let k = if r.chance(1, 8) { 0 } else { 1 + r.below(3) as usize };
+            if k > 0 {
+                let mut wt: Vec<(bool, u8, u8)> = (0..k).map(|i| (false, r.below(2) as u8, 10 + i as u8)).collect();
+                // reads before, between or after the writes of the writing task
+                for _ in 0..r.below(3) {
+                    let at = r.below(wt.len() as u64 + 1) as usize;
+                    wt.insert(at, (true, r.below(3) as u8, 0));
+                }
+                let pos = r.below(tasks.len() as u64 + 1) as usize;
+                tasks.insert(pos, wt);
+            }
+            let len = r.below(14) as usize;
+            let nt = tasks.len() as u64;
+            let sched: Vec<usize> = (0..len).map(|_| r.below(nt) as usize).collect();
+            let cp = r.chance(1, 2);
+            proto_case(&mut cx, 1 + r.below(3) as u8, &tasks, &sched, cp).await;
+            cx.stat(if cp { "proto_parked_before_cache_update" } else { "proto_parked_after_data_layer" });
+            cx.stat(&format!("proto_tasks_{}", tasks.len()));
+        }
+    });
+    proto_parallel(&mut cx, if tier == 0 { 300 } else { 6000 }, seed);
     cx
 }
